@@ -112,6 +112,30 @@ fn box_small(obs: &mut Obs, thorough: bool) -> Res {
             check_q(&one_seg(sel), &doc, obs, nt)?;
             n += 1;
         }
+        // several index / slice selectors in one bracketed selection (one input node): each contributes its
+        // own sequence, selections that are empty for every part included (`[::0, 1:3:0]` selects nothing)
+        let parts = [
+            Sel::Slice(None, None, Some(0), false),
+            Sel::Slice(Some(1), Some(3), Some(0), false),
+            Sel::Slice(Some(-3), Some(7), Some(0), false),
+            Sel::Slice(Some(len as i64), None, None, false),
+            Sel::Slice(None, None, Some(-1), false),
+            Sel::Slice(Some(1), None, Some(2), false),
+            Sel::Index(len as i64),
+            Sel::Index(-(len as i64) - 1),
+            Sel::Index(0),
+            Sel::Index(-1),
+        ];
+        for a in &parts {
+            for b2 in &parts {
+                let q = Query { abs: true, segs: vec![Seg { desc: false, sels: vec![a.clone(), b2.clone()], dot: false }] };
+                check_q(&q, &doc, obs, true)?;
+                n += 1;
+            }
+        }
+        let q = Query { abs: true, segs: vec![Seg { desc: false, sels: vec![parts[0].clone(), parts[1].clone(), parts[2].clone()], dot: false }] };
+        check_q(&q, &doc, obs, true)?;
+        n += 1;
     }
     obs.boxes.push(json!({"box": "slices and indices on arrays", "lengths": format!("0..={}", maxlen), "start,end": format!("absent or -{}..={}", b, b),
         "step": format!("absent or -{}..={}", st, st), "index": format!("-{}..={}", b + 1, b + 1), "queries": n, "exhaustive": true}));
